@@ -106,82 +106,101 @@ def sect (bs : Bytes) : Option (Bytes × Bytes) :=
 /-- `decodeMetadata` (after the fix): the section must be consumed exactly by
     length-prefixed key/value pairs. Fuel = section length (each round consumes ≥ 8). -/
 def decodeMetaAux : Nat → Bytes → Option (List (Bytes × Bytes))
-  | _, [] => some []
-  | 0, _ :: _ => none
+  | 0, bs => if bs.isEmpty then some [] else none
   | fuel + 1, bs =>
-    match sect bs with
-    | none => none
-    | some (k, r1) =>
-      match sect r1 with
-      | none => none
-      | some (v, r2) => (decodeMetaAux fuel r2).map ((k, v) :: ·)
+    if bs.isEmpty then some [] else
+    (sect bs).bind fun kr => (sect kr.2).bind fun vr =>
+      (decodeMetaAux fuel vr.2).map ((kr.1, vr.1) :: ·)
 
 def decodeMeta (bs : Bytes) : Option (List (Bytes × Bytes)) := decodeMetaAux bs.length bs
 
-/-- Parse a frame body (the `totalL` bytes after the 16-byte prefix). -/
-def decodeBody (reg : Registry) (h : Header) (body : Bytes) : Except DecErr Msg :=
-  match sect body with
+/-! The decoder is written in continuation-passing style (`withSect bs k`): each step either
+    fails or hands the parsed piece and the rest to the continuation.  This keeps the shape
+    of the Go code (a sequence of "read length, check, slice" steps) and makes every step a
+    rewrite rule in the proofs (`withSect_encode`). -/
+
+/-- read one length-prefixed section or fail with `malformed` -/
+def withSect {α : Type} (bs : Bytes) (k : Bytes → Bytes → Except DecErr α) : Except DecErr α :=
+  match sect bs with
   | none => .error .malformed
-  | some (path, r1) =>
-  match sect r1 with
-  | none => .error .malformed
-  | some (method, r2) =>
-  match sect r2 with
-  | none => .error .malformed
-  | some (metaB, r3) =>
+  | some (a, r) => k a r
+
+def withMeta {α : Type} (metaB : Bytes) (k : List (Bytes × Bytes) → Except DecErr α) : Except DecErr α :=
   match decodeMeta metaB with
   | none => .error .metaKV
-  | some md =>
-  match sect r3 with
-  | none => .error .malformed
-  | some (pay, _slack) =>
-    if Header.compressType h == C.CompressType_None then
-      .ok ⟨h, path, method, md, pay⟩
-    else match reg (Header.compressType h) with
-      | none => .error .unsupportedCompressor
-      | some c => match c.unzip pay with
-        | none => .error .unzipFailed
-        | some p => .ok ⟨h, path, method, md, p⟩
+  | some md => k md
+
+/-- The payload step of `Decode`: unzip according to the header's compress type. -/
+def unzipStep (reg : Registry) (h : Header) (pay : Bytes) : Except DecErr Bytes :=
+  if Header.compressType h == C.CompressType_None then .ok pay
+  else match reg (Header.compressType h) with
+    | none => .error .unsupportedCompressor
+    | some c => match c.unzip pay with
+      | none => .error .unzipFailed
+      | some p => .ok p
+
+/-- Parse a frame body (the `totalL` bytes after the 16-byte prefix). -/
+def decodeBody (reg : Registry) (h : Header) (body : Bytes) : Except DecErr Msg :=
+  withSect body fun path r1 =>
+  withSect r1 fun method r2 =>
+  withSect r2 fun metaB r3 =>
+  withMeta metaB fun md =>
+  withSect r3 fun pay _slack =>
+  (unzipStep reg h pay).map fun p => ⟨h, path, method, md, p⟩
 
 structure Cfg where
   maxLen : Nat := 0      -- protocol.MaxMessageLength (0 = unlimited)
   reg : Registry
 
+abbrev DecRes := Except (DecErr × Nat) (Msg × Bytes)
+
+/-- `io.ReadFull` of `n` bytes: on a short read the decoder fails having consumed
+    everything that was there (`all` bytes). -/
+def withTake {α : Type} (n : Nat) (bs : Bytes) (all : Nat) (k : Bytes → Bytes → Except (DecErr × Nat) α) :
+    Except (DecErr × Nat) α :=
+  match takeN n bs with
+  | none => .error (.eof, all)
+  | some (a, r) => k a r
+
+def withU32 {α : Type} (bs : Bytes) (all : Nat) (k : Nat → Bytes → Except (DecErr × Nat) α) :
+    Except (DecErr × Nat) α :=
+  match rd32p bs with
+  | none => .error (.eof, all)
+  | some (n, r) => k n r
+
+def withHeader {α : Type} (hb : Bytes) (all : Nat) (k : Header → Except (DecErr × Nat) α) :
+    Except (DecErr × Nat) α :=
+  match Header.ofBytes hb with
+  | none => .error (.eof, all)      -- unreachable: hb has 12 bytes
+  | some h => k h
+
+/-- attach the unread rest (on success) or the consumed count (on a body error) -/
+def decodeFinish (r : Except DecErr Msg) (total : Nat) (rest : Bytes) : DecRes :=
+  match r with
+  | .error e => .error (e, 16 + total)
+  | .ok m => .ok (m, rest)
+
 /-- Decode one frame from the front of a byte string; returns the message and the
     unread rest, or an error together with the number of bytes consumed. -/
-def decode (cfg : Cfg) (bs : Bytes) : Except (DecErr × Nat) (Msg × Bytes) :=
-  match bs with
-  | [] => .error (.eof, 0)
-  | b0 :: _ =>
-    if b0 != C.magicNumber then .error (.badMagic, 1) else
-    match takeN 12 bs with
-    | none => .error (.eof, bs.length)
-    | some (hb, r1) =>
-      match Header.ofBytes hb with
-      | none => .error (.eof, bs.length)   -- unreachable: hb has 12 bytes
-      | some h =>
-        match rd32p r1 with
-        | none => .error (.eof, bs.length)
-        | some (total, r2) =>
-          if 0 < cfg.maxLen ∧ cfg.maxLen < total then .error (.tooLong, 16) else
-          match takeN total r2 with
-          | none => .error (.eof, bs.length)
-          | some (body, rest) =>
-            match decodeBody cfg.reg h body with
-            | .error e => .error (e, 16 + total)
-            | .ok m => .ok (m, rest)
+def decode (cfg : Cfg) (bs : Bytes) : DecRes :=
+  if bs.isEmpty then .error (.eof, 0) else
+  if bs.head? != some C.magicNumber then .error (.badMagic, 1) else
+  withTake 12 bs bs.length fun hb r1 =>
+  withHeader hb bs.length fun h =>
+  withU32 r1 bs.length fun total r2 =>
+  if 0 < cfg.maxLen ∧ cfg.maxLen < total then .error (.tooLong, 16) else
+  withTake total r2 bs.length fun body rest =>
+  decodeFinish (decodeBody cfg.reg h body) total rest
 
 /-- Decode frames until the input is exhausted or an error occurs (a decode error is
     fatal for the connection in both the server and the client read loops). -/
 def decodeAll (cfg : Cfg) : Nat → Bytes → List Msg × Option DecErr
   | 0, _ => ([], none)
-  | _ + 1, [] => ([], none)
   | fuel + 1, bs =>
+    if bs.isEmpty then ([], none) else
     match decode cfg bs with
     | .error (e, _) => ([], some e)
-    | .ok (m, rest) =>
-      let (ms, e) := decodeAll cfg fuel rest
-      (m :: ms, e)
+    | .ok (m, rest) => ((decodeAll cfg fuel rest).1 |>.cons m, (decodeAll cfg fuel rest).2)
 
 /-! ### the chunked reader (`io.ReadFull` over a reader that returns arbitrary chunks) -/
 
